@@ -378,15 +378,15 @@ func runCase(c Case) string {
 			if m != "" && msg == "" {
 				msg = m
 			}
-		case <-time.After(60 * time.Second):
+		case <-time.After(vkit.WaitCeiling):
 			if msg == "" {
-				msg = fmt.Sprintf("subscriber %d (stable) received %d of %d messages within 60 s after the publishers finished", si, atomic.LoadInt64(&s.got), total)
+				msg = fmt.Sprintf("subscriber %d (stable) received %d of %d messages within the wait ceiling after the publishers finished", si, atomic.LoadInt64(&s.got), total)
 			}
 		}
 	}
 	if c.Share > 0 && msg == "" {
 		// every message went to exactly one member of the share group: together they hold each (publisher, seq) once
-		deadline := time.Now().Add(60 * time.Second)
+		deadline := time.Now().Add(vkit.WaitCeiling)
 		for {
 			var sum int64
 			for _, s := range subs {
